@@ -37,6 +37,8 @@ type Engine struct {
 	Solver     *Solver
 	Intrinsics map[string]Intrinsic
 	Redirects  map[string]*ssa.Function // callee name -> harness function
+	RedirectMatch func(name string) string // optional: callee name -> harness function name in RedirectPkg
+	RedirectPkg   *ssa.Package
 	NativeGlob map[string]interface{} // qualified name -> pointer to the native variable
 	Events     []Event
 	Reach      map[string]int
